@@ -1,6 +1,7 @@
 package main
 
 import (
+	"sort"
 	"fmt"
 	"go/constant"
 	"go/token"
@@ -108,14 +109,90 @@ func (e *fnEnc) loadValue(st *state, addr string, t types.Type) string {
 			}
 			return term
 		}
-		// large array loaded as a value: unknown (sound over-approximation)
-		return e.declare("bigarr", s)
+		// large array loaded as a value: an uninterpreted function of the heaps its cells
+		// live in and of the address (the same heap and address give the same value)
+		return e.bigLoad(st, addr, t)
 	}
 	key := s.heapKey()
 	if key == "" {
 		e.unsupported("load of type %s", t)
 	}
 	return e.selectFwd(e.heap(st, key, s), addr)
+}
+
+// leafHeaps collects the heaps that hold the cells of a value of type t, and the nesting
+// depth of those cells below the value's own address.
+func (e *fnEnc) leafHeaps(t types.Type, acc map[string]*Sort) int {
+	switch u := t.Underlying().(type) {
+	case *types.Struct:
+		d := 0
+		for i := 0; i < u.NumFields(); i++ {
+			if k := e.leafHeaps(u.Field(i).Type(), acc); k > d {
+				d = k
+			}
+		}
+		return d + 1
+	case *types.Array:
+		if _, ok := isByteArrayBV(t); ok {
+			acc["bv8"] = sortBV8
+			return 1
+		}
+		if u.Len() == 0 {
+			return 0
+		}
+		return e.leafHeaps(u.Elem(), acc) + 1
+	}
+	s := e.sortOf(t)
+	if k := s.heapKey(); k != "" {
+		acc[k] = s
+	}
+	return 0
+}
+
+func (e *fnEnc) bigLoad(st *state, addr string, t types.Type) string {
+	s := e.sortOf(t)
+	acc := map[string]*Sort{}
+	e.leafHeaps(t, acc)
+	var keys []string
+	for k := range acc {
+		keys = append(keys, k)
+	}
+	sort.Strings(keys)
+	fname := "bigload_" + sanitize(s.name) + "_" + strings.Join(keys, "_")
+	var doms, args []string
+	for _, k := range keys {
+		doms = append(doms, "(Array Ref "+acc[k].name+")")
+		args = append(args, e.heap(st, k, acc[k]))
+	}
+	doms = append(doms, "Ref")
+	args = append(args, addr)
+	if !e.lazySet[fname] {
+		e.lazySet[fname] = true
+		e.lazy = append(e.lazy, fmt.Sprintf("(declare-fun %s (%s) %s)", fname, strings.Join(doms, " "), s.name))
+	}
+	return app(fname, args...)
+}
+
+// bigStore writes a large array value: the cells below addr become unknown, everything
+// else is unchanged, and reading the whole array back gives the value written.
+func (e *fnEnc) bigStore(st *state, addr string, t types.Type, val string) {
+	acc := map[string]*Sort{}
+	if d := e.leafHeaps(t, acc); d > 4 {
+		e.unsupported("store of large array value %s (cells nested %d deep)", t, d)
+	}
+	var keys []string
+	for k := range acc {
+		keys = append(keys, k)
+	}
+	sort.Strings(keys)
+	for _, k := range keys {
+		old := e.heap(st, k, acc[k])
+		nh := e.declare("Hbig_"+k, &Sort{name: "(Array Ref " + acc[k].name + ")"})
+		e.hasQuant = true
+		e.emit(fmt.Sprintf("(assert (forall ((a Ref)) (! (=> (not (under %s a)) (= (select %s a) (select %s a))) :pattern ((select %s a)))))", addr, nh, old, nh))
+		st.heap[k] = nh
+	}
+	e.emit(fmt.Sprintf("(assert (= %s %s))", e.bigLoad(st, addr, t), val))
 }
 
 type storeRec struct{ prev, addr, val string }
@@ -261,7 +338,8 @@ func (e *fnEnc) storeValue(st *state, addr string, t types.Type, val string) {
 			}
 			return
 		}
-		e.unsupported("store of large array value %s", t)
+		e.bigStore(st, addr, t, val)
+		return
 	}
 	key := s.heapKey()
 	if key == "" {
